@@ -19,14 +19,17 @@ package main
 
 import (
 	"context"
+	"errors"
 	"fmt"
 	"io"
+	"net"
 	"sort"
 	"strings"
 	"sync/atomic"
 
 	"github.com/go-logr/logr"
 	extv1 "k8s.io/apiextensions-apiserver/pkg/apis/apiextensions/v1"
+	kerrors "k8s.io/apimachinery/pkg/api/errors"
 	"k8s.io/apimachinery/pkg/apis/meta/v1/unstructured"
 	"k8s.io/apimachinery/pkg/runtime"
 	"k8s.io/apimachinery/pkg/runtime/schema"
@@ -62,10 +65,13 @@ type c08Owner struct {
 	Idx   int  `json:"idx"` // index into objs; -1 = an owner that does not exist
 	Ctrl  bool `json:"ctrl,omitempty"`
 	Block bool `json:"block,omitempty"`
+	// Twin (with Idx -1): the reference names the XRD of this world (same apiVersion, kind
+	// and name) but carries the UID of an earlier incarnation that no longer exists.
+	Twin bool `json:"twin,omitempty"`
 }
 
 type c08Obj struct {
-	Kind   string     `json:"kind"` // claim xr xrd crd rev lock usage res
+	Kind   string     `json:"kind"` // claim xr xrd crd rev lock usage res res2 res3
 	Name   string     `json:"name"` // claims: "ns/name"
 	Fins   []string   `json:"fins,omitempty"`
 	Del    bool       `json:"del,omitempty"`
@@ -80,16 +86,35 @@ type c08Obj struct {
 	// Whether a revision is in the Lock does not follow from either.
 	Inactive bool `json:"inactive,omitempty"`
 	SkipDeps bool `json:"skipDeps,omitempty"`
+	// usages: kind of the using (spec.by) and of the used (spec.of) resource: "" = res,
+	// res2 = the same Kind in another API group, res3 = another Kind in the same group.
+	RefKind string `json:"refKind,omitempty"`
+	OfKind  string `json:"ofKind,omitempty"`
 }
 
 type c08Step struct {
-	Op   string `json:"op"`             // spawn step del gc unfin
+	Op   string `json:"op"`             // spawn step del gc unfin edit
 	C    string `json:"c,omitempty"`    // spawn: claim xr defined offered rev usage
-	Kind string `json:"kind,omitempty"` // del/unfin
-	Name string `json:"name,omitempty"` // spawn/del/unfin
+	Kind string `json:"kind,omitempty"` // del/unfin/edit
+	Name string `json:"name,omitempty"` // spawn/del/unfin/edit
 	T    int    `json:"t,omitempty"`    // step: thread index
 	O    string `json:"o,omitempty"`    // step: ok fail conflict crashBefore crashAfter
 	Fin  string `json:"fin,omitempty"`  // unfin
+	// step, o=fail: the class of the error the API server (or the transport) answers with;
+	// "" = 500 InternalError. The model knows one failure reply: the code must not tell
+	// these classes apart.
+	E string `json:"e,omitempty"`
+	// step, o=ok: if the call is a read it is answered from the informer cache as it was
+	// before schedule step At-1 (0 = fresh). A write ignores At.
+	At int `json:"at,omitempty"`
+	// step, o=ok: the read is answered NotFound although the object exists (it was created
+	// so recently that the informer has not seen it). Outside the model (equivalent to a
+	// creation step, see the known findings); judged by the monitors only.
+	Miss bool `json:"miss,omitempty"`
+	// edit: what a third party changes: "flip" (claim: compositeDeletePolicy; usage: the
+	// crossplane.io/composite label) or "ref=<name>" (claim: spec.resourceRef.name, xr:
+	// spec.claimRef to ns/name, usage: spec.by.resourceRef.name; empty = removed)
+	W string `json:"w,omitempty"`
 }
 
 type c08Scn struct {
@@ -123,6 +148,8 @@ var (
 	c08ClaimGVK = schema.GroupVersionKind{Group: c08Group, Version: "v1", Kind: "Thing"}
 	c08XRGVK    = schema.GroupVersionKind{Group: c08Group, Version: "v1", Kind: "XThing"}
 	c08ResGVK   = schema.GroupVersionKind{Group: c08Group, Version: "v1", Kind: "Res"}
+	c08Res2GVK  = schema.GroupVersionKind{Group: "other." + c08Group, Version: "v1", Kind: "Res"}
+	c08Res3GVK  = schema.GroupVersionKind{Group: c08Group, Version: "v1", Kind: "Res3"}
 	c08XRDGVK   = v1.CompositeResourceDefinitionGroupVersionKind
 	c08CRDGVK   = extv1.SchemeGroupVersion.WithKind("CustomResourceDefinition")
 	c08RevGVK   = pkgv1.ProviderRevisionGroupVersionKind
@@ -146,12 +173,25 @@ func c08GVK(kind string) schema.GroupVersionKind {
 		return c08LockGVK
 	case "usage":
 		return c08UsageGVK
+	case "res2":
+		return c08Res2GVK
+	case "res3":
+		return c08Res3GVK
 	}
 	return c08ResGVK
 }
 
+var c08Kinds = []string{"claim", "xr", "xrd", "crd", "rev", "lock", "usage", "res", "res2", "res3"}
+
+func c08ResKind(k string) string {
+	if k == "" {
+		return "res"
+	}
+	return k
+}
+
 func c08KindOf(gk string) string {
-	for _, k := range []string{"claim", "xr", "xrd", "crd", "rev", "lock", "usage", "res"} {
+	for _, k := range c08Kinds {
 		if c08GVK(k).GroupKind().String() == gk {
 			return k
 		}
@@ -218,6 +258,8 @@ func c08Build(idx int, o c08Obj, all []c08Obj) *unstructured.Unstructured {
 				og := c08GVK(all[ow.Idx].Kind)
 				_, on := c08NsName(all[ow.Idx].Kind, all[ow.Idx].Name)
 				r["apiVersion"], r["kind"], r["name"] = og.GroupVersion().String(), og.Kind, on
+			} else if ow.Twin {
+				r["apiVersion"], r["kind"], r["name"] = c08XRDGVK.GroupVersion().String(), c08XRDGVK.Kind, c08XRDName
 			}
 			if ow.Ctrl {
 				r["controller"] = true
@@ -253,8 +295,8 @@ func c08Build(idx int, o c08Obj, all []c08Obj) *unstructured.Unstructured {
 		}
 	case "xrd":
 		spec = map[string]any{
-			"group": c08Group,
-			"names": map[string]any{"kind": "XThing", "plural": "xthings"},
+			"group":      c08Group,
+			"names":      map[string]any{"kind": "XThing", "plural": "xthings"},
 			"claimNames": map[string]any{"kind": "Thing", "plural": "things"},
 			"versions": []any{map[string]any{"name": "v1", "served": true, "referenceable": true,
 				"schema": map[string]any{"openAPIV3Schema": map[string]any{"type": "object", "properties": map[string]any{"spec": map[string]any{"type": "object", "properties": map[string]any{"x": map[string]any{"type": "string"}}}}}}}},
@@ -291,14 +333,15 @@ func c08Build(idx int, o c08Obj, all []c08Obj) *unstructured.Unstructured {
 			m["packages"] = ps
 		}
 	case "usage":
-		spec["of"] = map[string]any{"apiVersion": c08ResGVK.GroupVersion().String(), "kind": c08ResGVK.Kind, "resourceRef": map[string]any{"name": o.Of}}
+		og, bg := c08GVK(c08ResKind(o.OfKind)), c08GVK(c08ResKind(o.RefKind))
+		spec["of"] = map[string]any{"apiVersion": og.GroupVersion().String(), "kind": og.Kind, "resourceRef": map[string]any{"name": o.Of}}
 		if o.Ref != "" {
-			spec["by"] = map[string]any{"apiVersion": c08ResGVK.GroupVersion().String(), "kind": c08ResGVK.Kind, "resourceRef": map[string]any{"name": o.Ref}}
+			spec["by"] = map[string]any{"apiVersion": bg.GroupVersion().String(), "kind": bg.Kind, "resourceRef": map[string]any{"name": o.Ref}}
 		}
 		if o.Flag {
 			labels["crossplane.io/composite"] = "xr"
 		}
-	case "res":
+	case "res", "res2", "res3":
 		if o.Inuse {
 			labels["crossplane.io/in-use"] = "true"
 		}
@@ -325,6 +368,8 @@ type c08View struct {
 	Pkgs       []string
 	Inuse      bool
 	Ref, Of    string
+	RefKind    string // usages: kind of the using resource (res res2 res3)
+	OfKind     string // usages: kind of the used resource
 	Flag       bool
 	CtrlUID    string
 	Conds      []string
@@ -388,6 +433,8 @@ func c08ViewOf(u *unstructured.Unstructured) c08View {
 	case "usage":
 		v.Of, _, _ = unstructured.NestedString(u.Object, "spec", "of", "resourceRef", "name")
 		v.Ref, _, _ = unstructured.NestedString(u.Object, "spec", "by", "resourceRef", "name")
+		v.OfKind = c08RefKind(u, "of")
+		v.RefKind = c08RefKind(u, "by")
 		v.Flag = u.GetLabels()["crossplane.io/composite"] != ""
 	}
 	cs, _, _ := unstructured.NestedSlice(u.Object, "status", "conditions")
@@ -400,6 +447,14 @@ func c08ViewOf(u *unstructured.Unstructured) c08View {
 	}
 	sort.Strings(v.Conds)
 	return v
+}
+
+// c08RefKind is the kind (res res2 res3) a Usage's spec.of / spec.by names.
+func c08RefKind(u *unstructured.Unstructured, field string) string {
+	av, _, _ := unstructured.NestedString(u.Object, "spec", field, "apiVersion")
+	k, _, _ := unstructured.NestedString(u.Object, "spec", field, "kind")
+	gv, _ := schema.ParseGroupVersion(av)
+	return c08KindOf(schema.GroupKind{Group: gv.Group, Kind: k}.String())
 }
 
 type c08Snap struct {
@@ -477,19 +532,33 @@ func (s c08Snap) ofKind(kind string) []c08View {
 type c08Thread struct {
 	id      int
 	w       *c08World
+	ctl     string // controller this reconcile belongs to
+	name    string // key it reconciles
 	ready   chan struct{}
 	resume  chan Outcome
 	done    chan string
 	fin     bool
 	res     string
-	call    string // description of a non-store call (engine / cache) made in the last step
+	call    string // description of a call that is not in the store's log (engine / cache / cached read)
 	callRes string
+	// how the next API call is to be answered (set by the scheduler with the outcome)
+	errCls string // o=fail: error class
+	lag    *Store // o=ok: the informer cache a read is answered from (nil = the live store)
+	miss   bool   // o=ok: a read is answered NotFound
+	// missed: the objects THIS reconcile read as NotFound although they existed (cache
+	// miss). Only a write of this very reconcile can be explained by them.
+	missed map[string]bool
+	calls  int // schedule steps this reconcile has taken
 }
 
 type c08World struct {
 	st      *Store
 	eng     *engine.ControllerEngine
 	threads []*c08Thread
+	// cur is the one reconcile that is running: the scheduler lets exactly one goroutine
+	// run between two parks, so every call made through the long-lived reconcilers'
+	// clients, engine and package cache belongs to it.
+	cur     *c08Thread
 	abandon bool
 	mons    []Mon
 	seen    map[string]bool
@@ -497,6 +566,14 @@ type c08World struct {
 	infs    *c08Infs
 	ctrls   map[string]*c08Ctrl // controllers started in the current process, by name
 	kill    chan struct{}
+	// recs: the reconcilers of the current process, built ONCE per process the way Setup
+	// builds them (one claim / XR reconciler per XRD controller, one definition, offered,
+	// package revision and Usage reconciler) and shared by every reconcile of the process.
+	recs map[string]reconcile.Reconciler
+	// snaps[i] = the store just before schedule step i (kept when keepSnaps), the source of
+	// lagging informer-cache reads
+	snaps     []*Store
+	keepSnaps bool
 }
 
 func (w *c08World) mon(sig, why string) {
@@ -521,64 +598,202 @@ func (t *c08Thread) park() Outcome {
 	return o
 }
 
-// c08Client is the per-reconcile client: it parks before every API call.
+// c08Client is the client the long-lived reconcilers hold: it parks the running
+// reconcile before every API call and answers according to the scheduled outcome.
 type c08Client struct {
 	client.Client
-	t *c08Thread
+	w *c08World
+}
+
+// c08ErrMsg is the text of every injected failure (the text simstore's own injected 500
+// carries): the error text ends up in condition messages, which are part of the stored
+// object, so it must not depend on the class.
+const c08ErrMsg = "Internal error occurred: simstore: injected server error"
+
+// c08ErrOf builds the error of one class. Every class is a failure that says nothing
+// about the object: the reconcilers must treat them all like a 500.
+func c08ErrOf(cls, verb, kind, name string) error {
+	gr := schema.GroupResource{Group: c08Group, Resource: kind}
+	var se *kerrors.StatusError
+	switch cls {
+	case "timeout":
+		se = kerrors.NewTimeoutError("", 1)
+	case "serverTimeout":
+		se = kerrors.NewServerTimeout(gr, verb, 1)
+	case "tooManyRequests":
+		se = kerrors.NewTooManyRequests("", 1)
+	case "unavailable":
+		se = kerrors.NewServiceUnavailable("")
+	case "forbidden":
+		se = kerrors.NewForbidden(gr, name, fmt.Errorf("injected"))
+	case "unauthorized":
+		se = kerrors.NewUnauthorized("")
+	case "invalid":
+		se = kerrors.NewInvalid(schema.GroupKind{Group: c08Group, Kind: kind}, name, nil)
+	case "badRequest":
+		se = kerrors.NewBadRequest("")
+	case "expired":
+		se = kerrors.NewResourceExpired("")
+	case "methodNotSupported":
+		se = kerrors.NewMethodNotSupported(gr, verb)
+	case "tooLarge":
+		se = kerrors.NewRequestEntityTooLargeError("")
+	case "ctxDeadline":
+		return c08WrapErr{context.DeadlineExceeded}
+	case "ctxCanceled":
+		return c08WrapErr{context.Canceled}
+	case "netTemporary":
+		return c08WrapErr{&net.OpError{Op: "read", Net: "tcp", Err: c08TempErr{}}}
+	case "eof":
+		return c08WrapErr{io.ErrUnexpectedEOF}
+	default:
+		se = kerrors.NewInternalError(fmt.Errorf("simstore: injected server error"))
+	}
+	se.ErrStatus.Message = c08ErrMsg
+	return se
+}
+
+// c08WrapErr is a transport / context error with the uniform text.
+type c08WrapErr struct{ err error }
+
+func (e c08WrapErr) Error() string { return c08ErrMsg }
+func (e c08WrapErr) Unwrap() error { return e.err }
+func (e c08WrapErr) Timeout() bool {
+	var ne net.Error
+	return errors.As(e.err, &ne) && ne.Timeout() || errors.Is(e.err, context.DeadlineExceeded)
+}
+func (e c08WrapErr) Temporary() bool {
+	var te interface{ Temporary() bool }
+	return errors.As(e.err, &te) && te.Temporary()
+}
+
+// c08TempErr is a transport error that is Temporary() and Timeout().
+type c08TempErr struct{}
+
+func (c08TempErr) Error() string   { return "i/o timeout" }
+func (c08TempErr) Timeout() bool   { return true }
+func (c08TempErr) Temporary() bool { return true }
+
+// c08ReadClasses / c08WriteClasses: the error classes the generator injects at a read
+// resp. write ("" = InternalError). Invalid and 413 only answer writes.
+var c08ReadClasses = []string{"", "timeout", "serverTimeout", "tooManyRequests", "unavailable", "forbidden", "unauthorized", "badRequest", "expired", "methodNotSupported", "ctxDeadline", "ctxCanceled", "netTemporary", "eof"}
+var c08WriteClasses = append([]string{"invalid", "tooLarge"}, c08ReadClasses...)
+
+// failed replaces the store's injected generic failure by the scheduled class.
+func (c *c08Client) failed(t *c08Thread, o Outcome, err error, verb string, obj runtime.Object, name string) error {
+	if o != Fail || err == nil || t.errCls == "" || err == ErrCrashed {
+		return err
+	}
+	cls := t.errCls
+	if (cls == "invalid" || cls == "tooLarge") && (verb == "get" || verb == "list") {
+		cls = "" // 422 and 413 only answer writes
+	}
+	kind := "?"
+	if obj != nil {
+		kind = strings.ToLower(obj.GetObjectKind().GroupVersionKind().Kind)
+	}
+	return c08ErrOf(cls, verb, kind, name)
+}
+
+// cached answers a read of the running reconcile from a lagging informer cache. The call
+// does not reach the live store, so it is described here.
+func (c *c08Client) cached(t *c08Thread, o Outcome, do func(r client.Reader) error) (bool, error) {
+	if o != OK || t.lag == nil || c.w.abandon || c.w.st.Crashed() {
+		return false, nil
+	}
+	n := len(t.lag.Log)
+	err := do(t.lag)
+	if len(t.lag.Log) > n {
+		ci := t.lag.Log[n]
+		t.call, t.callRes = c08CallDesc(ci), ci.Err
+	}
+	return true, err
 }
 
 func (c *c08Client) Get(ctx context.Context, key client.ObjectKey, obj client.Object, opts ...client.GetOption) error {
-	c.t.park()
-	return c.Client.Get(ctx, key, obj, opts...)
+	t := c.w.cur
+	o := t.park()
+	if o == OK && t.miss && !c.w.abandon && !c.w.st.Crashed() {
+		// cache miss: the informer has not seen the object yet; obj is left untouched
+		gvk := obj.GetObjectKind().GroupVersionKind()
+		if gvk.Empty() {
+			gvk, _ = c.w.st.GroupVersionKindFor(obj)
+		}
+		k := c08KindOf(gvk.GroupKind().String())
+		full := c08FullName(k, key.Namespace, key.Name)
+		t.call, t.callRes = "get:"+k+":"+full, "notFound"
+		if c.w.st.Peek(gvk.GroupKind(), key.Namespace, key.Name) != nil {
+			if t.missed == nil {
+				t.missed = map[string]bool{}
+			}
+			t.missed[k+"/"+full] = true
+		}
+		return kerrors.NewNotFound(schema.GroupResource{Group: gvk.Group, Resource: strings.ToLower(gvk.Kind)}, key.Name)
+	}
+	if done, err := c.cached(t, o, func(r client.Reader) error { return r.Get(ctx, key, obj, opts...) }); done {
+		return err
+	}
+	return c.failed(t, o, c.Client.Get(ctx, key, obj, opts...), "get", obj, key.Name)
 }
 
 func (c *c08Client) List(ctx context.Context, list client.ObjectList, opts ...client.ListOption) error {
-	c.t.park()
-	return c.Client.List(ctx, list, opts...)
+	t := c.w.cur
+	o := t.park()
+	if done, err := c.cached(t, o, func(r client.Reader) error { return r.List(ctx, list, opts...) }); done {
+		return err
+	}
+	return c.failed(t, o, c.Client.List(ctx, list, opts...), "list", list, "")
 }
 
 func (c *c08Client) Create(ctx context.Context, obj client.Object, opts ...client.CreateOption) error {
-	c.t.park()
-	return c.Client.Create(ctx, obj, opts...)
+	t := c.w.cur
+	o := t.park()
+	return c.failed(t, o, c.Client.Create(ctx, obj, opts...), "create", obj, obj.GetName())
 }
 
 func (c *c08Client) Update(ctx context.Context, obj client.Object, opts ...client.UpdateOption) error {
-	c.t.park()
-	return c.Client.Update(ctx, obj, opts...)
+	t := c.w.cur
+	o := t.park()
+	return c.failed(t, o, c.Client.Update(ctx, obj, opts...), "update", obj, obj.GetName())
 }
 
 func (c *c08Client) Patch(ctx context.Context, obj client.Object, patch client.Patch, opts ...client.PatchOption) error {
-	c.t.park()
-	return c.Client.Patch(ctx, obj, patch, opts...)
+	t := c.w.cur
+	o := t.park()
+	return c.failed(t, o, c.Client.Patch(ctx, obj, patch, opts...), "patch", obj, obj.GetName())
 }
 
 func (c *c08Client) Delete(ctx context.Context, obj client.Object, opts ...client.DeleteOption) error {
-	c.t.park()
-	return c.Client.Delete(ctx, obj, opts...)
+	t := c.w.cur
+	o := t.park()
+	return c.failed(t, o, c.Client.Delete(ctx, obj, opts...), "delete", obj, obj.GetName())
 }
 
 func (c *c08Client) DeleteAllOf(ctx context.Context, obj client.Object, opts ...client.DeleteAllOfOption) error {
-	c.t.park()
-	return c.Client.DeleteAllOf(ctx, obj, opts...)
+	t := c.w.cur
+	o := t.park()
+	return c.failed(t, o, c.Client.DeleteAllOf(ctx, obj, opts...), "deletecollection", obj, "")
 }
 
 func (c *c08Client) Status() client.SubResourceWriter {
-	return &c08SubWriter{SubResourceWriter: c.Client.Status(), t: c.t}
+	return &c08SubWriter{SubResourceWriter: c.Client.Status(), c: c}
 }
 
 type c08SubWriter struct {
 	client.SubResourceWriter
-	t *c08Thread
+	c *c08Client
 }
 
 func (s *c08SubWriter) Update(ctx context.Context, obj client.Object, opts ...client.SubResourceUpdateOption) error {
-	s.t.park()
-	return s.SubResourceWriter.Update(ctx, obj, opts...)
+	t := s.c.w.cur
+	o := t.park()
+	return s.c.failed(t, o, s.SubResourceWriter.Update(ctx, obj, opts...), "update", obj, obj.GetName())
 }
 
 func (s *c08SubWriter) Patch(ctx context.Context, obj client.Object, patch client.Patch, opts ...client.SubResourcePatchOption) error {
-	s.t.park()
-	return s.SubResourceWriter.Patch(ctx, obj, patch, opts...)
+	t := s.c.w.cur
+	o := t.park()
+	return s.c.failed(t, o, s.SubResourceWriter.Patch(ctx, obj, patch, opts...), "patch", obj, obj.GetName())
 }
 
 // nonStore runs a call that is not an API-server call (engine, package cache) under
@@ -611,21 +826,22 @@ func (t *c08Thread) nonStore(desc string, do func() error) error {
 	return err
 }
 
-// c08Engine wraps the real controller engine for one reconcile.
+// c08Engine wraps the real controller engine of the process for the definition and
+// offered reconcilers; every call belongs to the running reconcile.
 type c08Engine struct {
-	t *c08Thread
+	w *c08World
 }
 
 func (e *c08Engine) Start(name string, o ...engine.ControllerOption) error {
-	return e.t.nonStore("start:"+name, func() error { return e.t.w.eng.Start(name, o...) })
+	return e.w.cur.nonStore("start:"+name, func() error { return e.w.eng.Start(name, o...) })
 }
 
 // Stop: under an injected failure the REAL engine.Stop runs while the informers refuse
 // to hand out the informer of the controller's watch, so that stopping that watch fails
 // half-way through Stop (the reconciler sees the error and is requeued).
 func (e *c08Engine) Stop(ctx context.Context, name string) error {
-	w := e.t.w
-	return e.t.nonStoreFailing("stop:"+name, func(fail bool) error {
+	w := e.w
+	return w.cur.nonStoreFailing("stop:"+name, func(fail bool) error {
 		w.infs.fail.Store(fail)
 		err := w.eng.Stop(ctx, name)
 		w.infs.fail.Store(false)
@@ -637,7 +853,7 @@ func (e *c08Engine) Stop(ctx context.Context, name string) error {
 	})
 }
 
-func (e *c08Engine) IsRunning(name string) bool { return e.t.w.eng.IsRunning(name) }
+func (e *c08Engine) IsRunning(name string) bool { return e.w.eng.IsRunning(name) }
 
 // nonStoreFailing is nonStore for a call that performs its own failure: do(true) must
 // fail the way the real component fails, do(false) is the normal call.
@@ -670,29 +886,29 @@ func (t *c08Thread) nonStoreFailing(desc string, do func(fail bool) error) error
 }
 
 func (e *c08Engine) GetWatches(name string) ([]engine.WatchID, error) {
-	return e.t.w.eng.GetWatches(name)
+	return e.w.eng.GetWatches(name)
 }
 
 func (e *c08Engine) StartWatches(name string, ws ...engine.Watch) error {
-	return e.t.nonStore("startWatches:"+name, func() error { return nil })
+	return e.w.cur.nonStore("startWatches:"+name, func() error { return nil })
 }
 
 func (e *c08Engine) StopWatches(ctx context.Context, name string, ws ...engine.WatchID) (int, error) {
 	return 0, nil
 }
 
-func (e *c08Engine) GetCached() client.Client             { return &c08Client{Client: e.t.w.st, t: e.t} }
-func (e *c08Engine) GetUncached() client.Client           { return &c08Client{Client: e.t.w.st, t: e.t} }
+func (e *c08Engine) GetCached() client.Client             { return &c08Client{Client: e.w.st, w: e.w} }
+func (e *c08Engine) GetUncached() client.Client           { return &c08Client{Client: e.w.st, w: e.w} }
 func (e *c08Engine) GetFieldIndexer() client.FieldIndexer { return nil }
 
 // c08Cache is the package cache of the revision reconciler.
-type c08Cache struct{ t *c08Thread }
+type c08Cache struct{ w *c08World }
 
-func (c *c08Cache) Has(string) bool                     { return false }
-func (c *c08Cache) Get(string) (io.ReadCloser, error)   { return nil, fmt.Errorf("c08: empty cache") }
-func (c *c08Cache) Store(string, io.ReadCloser) error   { return nil }
+func (c *c08Cache) Has(string) bool                   { return false }
+func (c *c08Cache) Get(string) (io.ReadCloser, error) { return nil, fmt.Errorf("c08: empty cache") }
+func (c *c08Cache) Store(string, io.ReadCloser) error { return nil }
 func (c *c08Cache) Delete(id string) error {
-	return c.t.nonStore("cacheDelete:"+id, func() error { return nil })
+	return c.w.cur.nonStore("cacheDelete:"+id, func() error { return nil })
 }
 
 // fake manager / controller for the real engine
@@ -780,6 +996,7 @@ func (w *c08World) newEngine(running []string) {
 		close(w.kill) // controllers of the previous process die with it
 	}
 	w.kill = make(chan struct{})
+	w.recs = map[string]reconcile.Reconciler{} // a new process builds its reconcilers anew
 	w.ctrls = map[string]*c08Ctrl{}
 	w.infs = &c08Infs{}
 	w.eng = engine.New(&c08Mgr{c: w.st, scheme: w.st.Scheme()}, w.infs, w.st, w.st)
@@ -827,52 +1044,68 @@ func c08NewWorld(s c08Scn) *c08World {
 		st.Seed(c08Build(i, o, s.Objs))
 	}
 	w := &c08World{st: st, seen: map[string]bool{}, created: map[string]bool{}}
+	for _, x := range s.Steps {
+		if x.At > 0 {
+			w.keepSnaps = true
+		}
+	}
 	w.newEngine(s.Running)
 	return w
 }
 
-// reconcileFn builds the real reconciler for one reconcile and returns the call.
-func (w *c08World) reconcileFn(t *c08Thread, ctl, name string) func() (reconcile.Result, error) {
-	cl := &c08Client{Client: w.st, t: t}
-	ctx := context.Background()
+// reconciler returns the process-wide reconciler of one controller, building it on first
+// use the way the controllers' Setup functions do: ONE object serves every reconcile (of
+// every key) until the process dies.
+func (w *c08World) reconciler(ctl string) reconcile.Reconciler {
+	if r, ok := w.recs[ctl]; ok {
+		return r
+	}
+	cl := &c08Client{Client: w.st, w: w}
+	var r reconcile.Reconciler
+	switch ctl {
+	case "claim":
+		r = claim.NewReconciler(cl, resource.CompositeClaimKind(c08ClaimGVK), resource.CompositeKind(c08XRGVK))
+	case "xr":
+		r = composite.NewReconciler(cl, cl, resource.CompositeKind(c08XRGVK))
+	case "defined":
+		r = definition.NewReconciler(definition.NewClientApplicator(cl), definition.WithControllerEngine(&c08Engine{w: w}))
+	case "offered":
+		r = offered.NewReconciler(offered.NewClientApplicator(cl), offered.WithControllerEngine(&c08Engine{w: w}))
+	case "rev":
+		mgr := &c08Mgr{c: cl, scheme: w.st.Scheme()}
+		r = revision.NewReconciler(mgr,
+			revision.WithCache(&c08Cache{w: w}),
+			revision.WithNewPackageRevisionFn(func() pkgv1.PackageRevision { return &pkgv1.ProviderRevision{} }),
+			revision.WithDependencyManager(revision.NewPackageDependencyManager(cl, dag.NewMapDag, pkgv1.ProviderGroupVersionKind)),
+		)
+	case "usage":
+		mgr := &c08Mgr{c: cl, scheme: w.st.Scheme()}
+		r = usagectrl.NewReconciler(mgr)
+	default:
+		r = reconcile.Func(func(context.Context, reconcile.Request) (reconcile.Result, error) {
+			return reconcile.Result{}, fmt.Errorf("c08: unknown controller %q", ctl)
+		})
+	}
+	w.recs[ctl] = r
+	return r
+}
+
+// reconcileFn returns one reconcile of the process-wide reconciler.
+func (w *c08World) reconcileFn(ctl, name string) func() (reconcile.Result, error) {
 	ns, n := "", name
 	if ctl == "claim" {
 		ns, n = c08NsName("claim", name)
 	}
 	req := reconcile.Request{NamespacedName: types.NamespacedName{Namespace: ns, Name: n}}
-	switch ctl {
-	case "claim":
-		r := claim.NewReconciler(cl, resource.CompositeClaimKind(c08ClaimGVK), resource.CompositeKind(c08XRGVK))
-		return func() (reconcile.Result, error) { return r.Reconcile(ctx, req) }
-	case "xr":
-		r := composite.NewReconciler(cl, cl, resource.CompositeKind(c08XRGVK))
-		return func() (reconcile.Result, error) { return r.Reconcile(ctx, req) }
-	case "defined":
-		r := definition.NewReconciler(definition.NewClientApplicator(cl), definition.WithControllerEngine(&c08Engine{t: t}))
-		return func() (reconcile.Result, error) { return r.Reconcile(ctx, req) }
-	case "offered":
-		r := offered.NewReconciler(offered.NewClientApplicator(cl), offered.WithControllerEngine(&c08Engine{t: t}))
-		return func() (reconcile.Result, error) { return r.Reconcile(ctx, req) }
-	case "rev":
-		mgr := &c08Mgr{c: cl, scheme: w.st.Scheme()}
-		r := revision.NewReconciler(mgr,
-			revision.WithCache(&c08Cache{t: t}),
-			revision.WithNewPackageRevisionFn(func() pkgv1.PackageRevision { return &pkgv1.ProviderRevision{} }),
-			revision.WithDependencyManager(revision.NewPackageDependencyManager(cl, dag.NewMapDag, pkgv1.ProviderGroupVersionKind)),
-		)
-		return func() (reconcile.Result, error) { return r.Reconcile(ctx, req) }
-	case "usage":
-		mgr := &c08Mgr{c: cl, scheme: w.st.Scheme()}
-		r := usagectrl.NewReconciler(mgr)
-		return func() (reconcile.Result, error) { return r.Reconcile(ctx, req) }
-	}
-	return func() (reconcile.Result, error) { return reconcile.Result{}, fmt.Errorf("c08: unknown controller %q", ctl) }
+	r := w.reconciler(ctl)
+	return func() (reconcile.Result, error) { return r.Reconcile(context.Background(), req) }
 }
 
 func (w *c08World) spawn(ctl, name string) *c08Thread {
-	t := &c08Thread{id: len(w.threads), w: w, ready: make(chan struct{}), resume: make(chan Outcome), done: make(chan string, 1)}
+	t := &c08Thread{id: len(w.threads), w: w, ctl: ctl, name: name, ready: make(chan struct{}), resume: make(chan Outcome), done: make(chan string, 1)}
 	w.threads = append(w.threads, t)
-	fn := w.reconcileFn(t, ctl, name)
+	fn := w.reconcileFn(ctl, name)
+	w.cur = t
 	go func() {
 		res := "ok"
 		if p := Guard(func() {
@@ -907,6 +1140,7 @@ func (w *c08World) drain() {
 		if t.fin {
 			continue
 		}
+		w.cur = t
 		t.resume <- OK
 		<-t.done
 		t.fin, t.res = true, "crashed"
@@ -955,6 +1189,9 @@ func c08CallDesc(c CallInfo) string {
 // step executes one schedule step and returns its observation.
 func (w *c08World) step(s c08Step, running []string) c08StepObs {
 	o := c08StepObs{Chg: []string{}}
+	if w.keepSnaps {
+		w.snaps = append(w.snaps, w.st.Clone())
+	}
 	pre := w.snap()
 	isCtl, crashStep := false, false
 	switch s.Op {
@@ -968,6 +1205,12 @@ func (w *c08World) step(s c08Step, running []string) c08StepObs {
 		isCtl = true
 		nlog := len(w.st.Log)
 		t.call, t.callRes = "", ""
+		t.calls++
+		t.errCls, t.lag, t.miss = s.E, nil, s.Miss
+		if s.At > 0 && s.At-1 < len(w.snaps) {
+			t.lag = w.snaps[s.At-1]
+		}
+		w.cur = t
 		t.resume <- c08Outcome(s.O)
 		w.wait(t)
 		w.st.Plan = nil
@@ -1003,6 +1246,9 @@ func (w *c08World) step(s c08Step, running []string) c08StepObs {
 		_ = w.st.Delete(context.Background(), u)
 	case "gc":
 		w.st.GCStep()
+	case "edit":
+		ns, n := c08NsName(s.Kind, s.Name)
+		w.st.Mutate(c08GVK(s.Kind).GroupKind(), ns, n, func(u *unstructured.Unstructured) { c08Edit(u, s.Kind, s.W) })
 	case "unfin":
 		ns, n := c08NsName(s.Kind, s.Name)
 		w.st.Mutate(c08GVK(s.Kind).GroupKind(), ns, n, func(u *unstructured.Unstructured) {
@@ -1023,9 +1269,62 @@ func (w *c08World) step(s c08Step, running []string) c08StepObs {
 		}
 	}
 	if isCtl {
-		w.monitor(pre, post, crashStep, o.Call)
+		w.monitor(w.threads[s.T], pre, post, crashStep, o.Call)
 	}
 	return o
+}
+
+// c08Edit is a third party editing an object: see c08Step.W.
+func c08Edit(u *unstructured.Unstructured, kind, what string) {
+	val, isRef := strings.CutPrefix(what, "ref=")
+	switch {
+	case what == "flip" && kind == "claim":
+		p, _, _ := unstructured.NestedString(u.Object, "spec", "compositeDeletePolicy")
+		if p == "Foreground" {
+			p = "Background"
+		} else {
+			p = "Foreground"
+		}
+		_ = unstructured.SetNestedField(u.Object, p, "spec", "compositeDeletePolicy")
+	case what == "flip" && kind == "usage":
+		l := u.GetLabels()
+		if l == nil {
+			l = map[string]string{}
+		}
+		if l["crossplane.io/composite"] != "" {
+			delete(l, "crossplane.io/composite")
+		} else {
+			l["crossplane.io/composite"] = "xr"
+		}
+		if len(l) == 0 {
+			l = nil
+		}
+		u.SetLabels(l)
+	case isRef && kind == "claim":
+		if val == "" {
+			unstructured.RemoveNestedField(u.Object, "spec", "resourceRef")
+		} else {
+			_ = unstructured.SetNestedMap(u.Object, map[string]any{"apiVersion": c08XRGVK.GroupVersion().String(), "kind": c08XRGVK.Kind, "name": val}, "spec", "resourceRef")
+		}
+	case isRef && kind == "xr":
+		if val == "" {
+			unstructured.RemoveNestedField(u.Object, "spec", "claimRef")
+		} else {
+			cns, cn := c08NsName("claim", val)
+			_ = unstructured.SetNestedMap(u.Object, map[string]any{"apiVersion": c08ClaimGVK.GroupVersion().String(), "kind": c08ClaimGVK.Kind, "namespace": cns, "name": cn}, "spec", "claimRef")
+		}
+	case isRef && kind == "usage":
+		if val == "" {
+			unstructured.RemoveNestedField(u.Object, "spec", "by")
+		} else {
+			av, _, _ := unstructured.NestedString(u.Object, "spec", "by", "apiVersion")
+			k, _, _ := unstructured.NestedString(u.Object, "spec", "by", "kind")
+			if k == "" {
+				av, k = c08ResGVK.GroupVersion().String(), c08ResGVK.Kind
+			}
+			_ = unstructured.SetNestedMap(u.Object, map[string]any{"apiVersion": av, "kind": k, "resourceRef": map[string]any{"name": val}}, "spec", "by")
+		}
+	}
 }
 
 func (w *c08World) stopAll() {
@@ -1061,7 +1360,7 @@ func (w *c08World) allCreated(vs []c08View) bool {
 
 // monitor evaluates the ordering constraints on one controller write: pre is the
 // store just before the call, post just after.
-func (w *c08World) monitor(pre, post c08Snap, crash bool, call string) {
+func (w *c08World) monitor(t *c08Thread, pre, post c08Snap, crash bool, call string) {
 	lost := func(v c08View, fin string) bool {
 		if !v.hasFin(fin) {
 			return false
@@ -1079,7 +1378,10 @@ func (w *c08World) monitor(pre, post c08Snap, crash bool, call string) {
 		case "claim":
 			if lost(v, claim.VerifC08Finalizer) && v.Ref != "" {
 				if x, ok := pre.objs["xr/"+v.Ref]; ok {
-					if !x.Del {
+					if !x.Del && t.missed["xr/"+v.Ref] {
+						// unchanged code does this when the XR is missing from the informer cache: recorded finding
+						w.mon("C08:claim-finalized-xr-missing-from-cache", fmt.Sprintf("%s: claim %s lost its finalizer while its XR %s exists and is not being deleted: the reconcile's cached read did not find the XR (created so recently that the informer had not seen it); the XR is orphaned", call, v.Name, v.Ref))
+					} else if !x.Del {
 						w.mon("C08:claim-finalizer-before-xr-delete", fmt.Sprintf("%s: claim %s lost its finalizer while its XR %s exists and is not being deleted", call, v.Name, v.Ref))
 					} else if v.Flag {
 						w.mon("C08:claim-finalizer-before-xr-gone-foreground", fmt.Sprintf("%s: claim %s (Foreground) lost its finalizer while its XR %s still exists", call, v.Name, v.Ref))
@@ -1114,7 +1416,11 @@ func (w *c08World) monitor(pre, post c08Snap, crash bool, call string) {
 			for _, x := range []struct{ fin, crd string }{{definition.VerifC08Finalizer, v.Ref}, {offered.VerifC08Finalizer, v.Of}} {
 				if lost(v, x.fin) {
 					if c, ok := pre.objs["crd/"+x.crd]; ok && c.CtrlUID == v.UID {
-						w.mon("C08:xrd-finalizer-before-crd-gone", fmt.Sprintf("%s: XRD %s lost %s while its CRD %s exists", call, v.Name, x.fin, x.crd))
+						if t.missed["crd/"+x.crd] {
+							w.mon("C08:xrd-torn-down-crd-missing-from-cache", fmt.Sprintf("%s: XRD %s lost %s while its CRD %s exists: the reconcile's cached read did not find the CRD (created so recently that the informer had not seen it)", call, v.Name, x.fin, x.crd))
+						} else {
+							w.mon("C08:xrd-finalizer-before-crd-gone", fmt.Sprintf("%s: XRD %s lost %s while its CRD %s exists", call, v.Name, x.fin, x.crd))
+						}
 					}
 				}
 			}
@@ -1130,9 +1436,26 @@ func (w *c08World) monitor(pre, post c08Snap, crash bool, call string) {
 			}
 		case "usage":
 			if lost(v, usagectrl.VerifC08Finalizer) && v.Flag && v.Ref != "" {
-				if _, ok := pre.objs["res/"+v.Ref]; ok {
-					w.mon("C08:usage-finalized-before-using-gone", fmt.Sprintf("%s: composed Usage %s lost its finalizer while its using resource %s exists", call, v.Name, v.Ref))
+				if _, ok := pre.objs[v.RefKind+"/"+v.Ref]; ok {
+					w.mon("C08:usage-finalized-before-using-gone", fmt.Sprintf("%s: composed Usage %s lost its finalizer while its using resource %s %s exists", call, v.Name, v.RefKind, v.Ref))
 				}
+			}
+		}
+	}
+	// a teardown reconcile of XRD n only ever stops ITS controller of n (the definition
+	// reconciler the composite controller, the offered reconciler the claim controller),
+	// and no other reconciler stops any controller
+	if !crash {
+		own := ""
+		switch t.ctl {
+		case "defined":
+			own = composite.ControllerName(t.name)
+		case "offered":
+			own = claim.ControllerName(t.name)
+		}
+		for n, r := range pre.running {
+			if r && !post.running[n] && n != own {
+				w.mon("C08:stopped-other-controller", fmt.Sprintf("%s: a %s reconcile of %s stopped controller %s", call, t.ctl, t.name, n))
 			}
 		}
 	}
@@ -1146,6 +1469,8 @@ func (w *c08World) monitor(pre, post c08Snap, crash bool, call string) {
 					if n := len(pre.ofKind(x.inst)); n > 0 {
 						if w.allCreated(pre.ofKind(x.inst)) {
 							w.mon("C08:instance-recreated-during-xrd-teardown", fmt.Sprintf("%s: controller %s stopped while %d %s instance(s) exist that a reconcile created after the empty-list check", call, x.ctl, n, x.inst))
+						} else if t.missed["crd/"+x.crd] {
+							w.mon("C08:xrd-torn-down-crd-missing-from-cache", fmt.Sprintf("%s: controller %s stopped while %d %s instance(s) exist and CRD %s is ours: the reconcile's cached read did not find the CRD (created so recently that the informer had not seen it)", call, x.ctl, n, x.inst, x.crd))
 						} else {
 							w.mon("C08:stop-with-instances", fmt.Sprintf("%s: controller %s stopped while %d %s instance(s) exist and CRD %s is ours", call, x.ctl, n, x.inst, x.crd))
 						}
